@@ -4,7 +4,8 @@
    [observed g t]: group g is read inside t (back-reference, back-reference conditional, either side
    of a balancing capture).  [erase keep t]: every plain capture (?<g>...) with keep g = false becomes a
    non-capturing group. *)
-From Verif Require Import Base.Prelude Model.Tree Model.Spec Model.VM Model.Writer Proofs.EraseProofs.
+From Verif Require Import Base.Prelude Model.Tree Model.Spec Model.VM Model.Writer Proofs.EraseProofs
+  Proofs.EraseLinkProofs.
 
 (* Spec level: if no erased group is observed in the tree, the leftmost priority-ordered search on
    the erased tree succeeds exactly when it does on the original, ends at the same text position,
@@ -49,6 +50,32 @@ Theorem C02_quick_program_is_program_of_erased_tree :
           (erase (fun g => emit_capture {| capmap := cm; quick := Some q |} g (-1)) t).
 Proof. exact erase_compile_capmap_ok. Qed.
 Print Assumptions C02_quick_program_is_program_of_erased_tree.
+
+(* The two levels joined: whenever syntax.Write produces a quick program (captureSlotsInUse of the
+   full program says some slot is unused), that program is the full program of a tree [erase keep root]
+   whose search gives the same answers as the original's: same success / failure, same final
+   position, same capture stacks for every kept group, and the groups of slot 0 (the match) are kept.
+   [reads g t] (<= observed g t): g is the target of a back-reference, of a back-reference
+   conditional, or the popped side of a balancing capture.
+   Side conditions (invariants of the Go parser/writer): every balancing capture's popped group has
+   a slot (bal_ok; follows from capmap_ok), every group the tree reads has a non-negative slot. *)
+Theorem C02_quick_program_sound :
+  forall cm capsize root prog,
+  bal_ok cm root = true ->
+  (forall g, reads g root = true -> 0 <= map_capnum {| capmap := cm; quick := None |} g) ->
+  write_quick cm capsize root = Some prog ->
+  exists keep,
+    prog = fst (write_full cm (erase keep root)) /\
+    (forall g, map_capnum {| capmap := cm; quick := None |} g = 0 -> keep g = true) /\
+    forall e fuel rtl start prevlen,
+      let r1 := find e fuel root rtl start prevlen in
+      let r2 := find e fuel (erase keep root) rtl start prevlen in
+      (forall s1, r1 = Ok (Some s1) -> exists s2, r2 = Ok (Some s2) /\ agree keep s1 s2) /\
+      (forall s2, r2 = Ok (Some s2) -> exists s1, r1 = Ok (Some s1) /\ agree keep s1 s2) /\
+      (r1 = Ok None <-> r2 = Ok None) /\
+      (r1 = Fuel <-> r2 = Fuel).
+Proof. exact write_quick_sound_spelled. Qed.
+Print Assumptions C02_quick_program_sound.
 
 (* Non-vacuity.  (a)(b)\1 on "aba": group 1 is referenced, group 2 is not.  The in-use vector
    computed from the full program keeps slots 0 and 1; erasing turns (b) into (?:b); both trees
